@@ -268,11 +268,15 @@ static void cmd_D(char** t) {
         if (ZSTD_isError(margin)) { r = margin; }
         else { unsigned long long cs = ZSTD_findDecompressedSize(f, fn);
             if (cs == ZSTD_CONTENTSIZE_UNKNOWN || cs == ZSTD_CONTENTSIZE_ERROR) cs = cap;
-            {   size_t total = (size_t)cs + margin; unsigned char* buf = (unsigned char*)malloc(total + 1);
+            {   size_t total = (size_t)cs + margin; unsigned char* buf;
+                if (total < fn) total = fn;   /* a frame whose header understates its content: keep the source inside the buffer */
+                buf = (unsigned char*)malloc(total + 1);
+                if (!buf) { r = (size_t)-ZSTD_error_memory_allocation; produced = 0; }
+                else {
                 memcpy(buf + total - fn, f, fn);
                 r = ZSTD_decompressDCtx(dc, buf, total, buf + total - fn, fn);
                 if (!ZSTD_isError(r)) { if (r > cap) r = (size_t)-ZSTD_error_dstSize_tooSmall; else memcpy(out, buf, r); }
-                produced = r; free(buf); } }
+                produced = r; free(buf); } } }
     } else r = (size_t)-ZSTD_error_GENERIC;
     if (ZSTD_isError(r)) perr(id, r);
     else { printf("%s OK ", id); puthex(out, produced); if (extra[0]) printf(" ends=%s", extra); putchar('\n'); }
